@@ -690,6 +690,7 @@ def run_shard(spec):
     acc = Acc()
     for i in range(spec["n"]):
         case = gen_case(rng, f"{spec['seed'] % 46656:x}x{i:x}")
+        case["hist"] = [spec["seed"], i]
         run_case(acc, case)
         if i < 2:
             acc.samples.append({"owner": case["owner"], "instances": case["instances"],
@@ -701,5 +702,18 @@ def replay(pid, case):
     import hal.simulation as hs
     hs.pauseTiming()
     acc = Acc()
-    run_case(acc, case)
+    if "hist" not in case:
+        run_case(acc, case)
+    else:
+        # the case is repeated behind the cases that preceded it in its shard (owner classes of earlier cases carry the same
+        # class names; whatever the library remembers about them is part of the history).  It is NOT tried alone first:
+        # that run would itself become part of the history
+        seed, idx = case["hist"]
+        rng = random.Random(seed)
+        for i in range(idx):
+            run_case(Acc(), gen_case(rng, f"{seed % 46656:x}x{i:x}"))
+        acc = Acc()
+        run_case(acc, case)
+        if acc.violations and idx:
+            acc.violations[0]["history"] = f"replayed behind the {idx} cases generated before it from shard seed {seed}"
     return acc.violations[0] if acc.violations else None
